@@ -199,7 +199,7 @@ impl Machine {
         let extra: Vec<MFinding> = out
             .findings
             .iter()
-            .filter(|f| matches!(f.property, "C04" | "C05" | "C03") && !f.monitor.starts_with("bookkeeping"))
+            .filter(|f| matches!(f.property, "C04" | "C05" | "C03" | "C07") && !f.monitor.starts_with("bookkeeping"))
             .flat_map(|f| {
                 let mut v = Vec::new();
                 if self.inval_seen {
@@ -536,6 +536,26 @@ fn call_step(g: &mut FnGhost, k: u32, now: u64, out: &mut StepOut) {
                 out.findings.push(MFinding { property: "C01", monitor: "phantom-entry".into(), detail: format!("{}({k}) made key {extra} appear", f.fn_name) });
             }
             let removed = cand.difference(post).count();
+            // which entries went (FIFO: oldest store first, LRU: least recently used first)
+            if removed > 0 && matches!(f.pol(), Pol::Fifo | Pol::Lru) && !oversized {
+                let mut ord: Vec<(u64, u32)> = cand
+                    .iter()
+                    .map(|kk| {
+                        if *kk == k {
+                            (u64::MAX, *kk)
+                        } else {
+                            let e = g.present.get(kk);
+                            (e.map_or(0, |e| if f.pol() == Pol::Fifo { e.stored_seq } else { e.last_use }), *kk)
+                        }
+                    })
+                    .collect();
+                ord.sort();
+                let want: BTreeSet<u32> = ord.iter().take(removed).map(|x| x.1).collect();
+                let gone: BTreeSet<u32> = cand.difference(post).copied().collect();
+                if want != gone {
+                    out.findings.push(MFinding { property: "C07", monitor: "wrong-victim".into(), detail: format!("{}({k}): removed {:?}, {} order (oldest first) is {:?}", f.fn_name, gone, f.pol().name(), ord.iter().map(|x| x.1).collect::<Vec<_>>()) });
+                }
+            }
             if f.mem.is_none() {
                 let expect = f.limit.map_or(0, |n| cand.len().saturating_sub(n));
                 if removed != expect {
@@ -845,6 +865,17 @@ pub fn suites_for(property: &str, thorough: bool) -> Vec<Suite> {
                 out.push(Suite { f, f2, group: vec![], wash: false, alphabet: vec![MOp::Call(1), MOp::Call(2), MOp::Call(3), MOp::Call2(1), MOp::Call2(2)], depth: d(5, 6) });
             }
         }
+        "C07" => {
+            for f in fam("core").into_iter().filter(|f| f.flavour != Flavour::Thread && matches!(f.pol(), Pol::Fifo | Pol::Lru) && f.ttl.is_none() && (f.limit.is_some() || f.mem.is_some())) {
+                let n = f.limit.unwrap_or(2) as u32;
+                let mut a: Vec<MOp> = (1..=n + 2).map(MOp::Call).collect();
+                if f.mem.is_some() {
+                    a.push(MOp::Call(9));
+                }
+                let depth = if n >= 3 { d(5, 6) } else { d(5, 7) };
+                out.push(Suite { f, f2: None, group: vec![], wash: false, alphabet: a, depth });
+            }
+        }
         "C09" => {
             for f in fam("result") {
                 let mut a = vec![MOp::Call(1), MOp::Call(2), MOp::Call(3)];
@@ -869,12 +900,24 @@ pub fn suites_for(property: &str, thorough: bool) -> Vec<Suite> {
                 if thorough {
                     a.push(MOp::Call(3));
                 }
-                out.push(Suite { f, f2: None, group: vec![], wash: false, alphabet: a, depth: d(4, 5) });
+                if f.ttl.is_some() {
+                    a.push(MOp::Tick);
+                }
+                out.push(Suite { f, f2: None, group: vec![], wash: false, alphabet: a, depth: if f.ttl.is_some() { d(5, 6) } else { d(4, 5) } });
             }
         }
         "C13" => {
             let masks = [0b0010u32, 0b0100, 0b0110, 0b1110, 0b1010];
-            let cands: Vec<&'static FnInfo> = fam("core").into_iter().filter(|f| f.flavour != Flavour::Thread && f.ttl.is_none() && (thorough || f.mem.is_none())).collect();
+            let cands: Vec<&'static FnInfo> = fam("core").into_iter().filter(|f| f.flavour != Flavour::Thread && f.ttl.is_none() && f.limit != Some(3) && (thorough || f.mem.is_none())).collect();
+            // deeper queues: remove an entry that has two later entries behind it, then overflow twice
+            for f in fam("core").into_iter().filter(|f| f.flavour != Flavour::Thread && f.limit == Some(3)) {
+                let mut a: Vec<MOp> = (1..=5).map(MOp::Call).collect();
+                a.push(MOp::InvWith(0b0010));
+                if thorough {
+                    a.push(MOp::InvWith(0b0100));
+                }
+                out.push(Suite { f, f2: None, group: vec![], wash: false, alphabet: a, depth: 6 });
+            }
             for (i, f) in cands.iter().enumerate() {
                 let f2 = cands.get((i + 1) % cands.len()).copied();
                 let mut a = vec![MOp::Call(1), MOp::Call(2), MOp::Call(3)];
